@@ -242,12 +242,12 @@ def localDev (z : Zone) (sz : Spec.Zone) (k : LSetter) (d : DateObj) (tv : Spec.
   let d1 := match raw with
     | some tl => if transitionHour sz tl then ["local_transition_hour"] else []
     | none => []
-  let d2 := if k = .year2 ∧ d.isNaN ∧ raw.isSome then ["setyear_invalid"] else []
+  let d2 : List String := []
   let as := args.take k.limit
   let d3 := match (if as.isEmpty then none else numberArgs as) with
     | none => []
     | some vs =>
-      if d.isNaN ∧ k ≠ .year then [] else
+      if d.isNaN ∧ k ≠ .year ∧ k ≠ .year2 then [] else
       let base := if d.isNaN then newDate (ofInt (z.dateToUnix 0 * 1000)) else d
       let vs := match k, vs with
         | .year2, [y] => [if 0 ≤ y ∧ y ≤ 99 then y + 1900 else y]
@@ -320,12 +320,11 @@ def handleLocal (z : Zone) (sz : Spec.Zone) (abbrevZ : Bool) (ws : List String) 
     | some v =>
       let tv := Spec.clipNumber v
       let yr : Int := match tv with | some t => Spec.YearFromTime (Spec.LocalTime sz t) | none => 0
-      let dev := (if abbrevZ ∧ tv.isSome then ["zone_abbrev_z"] else []) ++
-                 (if tv.isSome ∧ ¬ (0 ≤ yr ∧ yr ≤ 9999) then ["rfc1123_year_range"] else [])
+      let dev := (if tv.isSome ∧ ¬ (0 ≤ yr ∧ yr ≤ 9999) then ["rfc1123_year_range"] else [])
       some (reply (numOut (parseOfToString z abbrevZ (newDate v))) (numOut (Spec.parseOfUTCString tv)) (devList dev))
     | none => some "bad-op"
   | ["datefn"] =>
-    some (reply (boolTok (dateFunctionAgrees false)) "true" "date_function_utc")
+    some (reply (boolTok (dateFunctionAgrees false)) "true" noDev)
   | _ => none
 
 def handleMisc (ws : List String) : Option String :=
@@ -340,16 +339,13 @@ def handleMisc (ws : List String) : Option String :=
   | ["tojson", p, c] => match prim? p with
     | some (mp, sp) =>
       let callable := c = "1"
-      let dev := if mp = .strNonNumeric ∨ mp = .undef then ["tojson_nonnumber_primitive"] else []
-      some (reply (jsonOut (toJSONGeneric mp callable)) (jsonOutS (Spec.toJSONGeneric sp callable)) (devList dev))
+      some (reply (jsonOut (toJSONGeneric mp callable)) (jsonOutS (Spec.toJSONGeneric sp callable)) noDev)
     | none => some "bad-op"
   | ["parse", hx] => match bytes? hx with
     | some bs => match dateParseFamily bs, familyFields bs with
       | some m, some (y, mo, dd, hh, mi, ss, ms, sg, oh, om) =>
         let sp := Spec.parseFields y mo dd hh mi ss ms sg oh om
-        let dev := (if hh = 24 ∧ sp.isSome then ["parse_hour_24"] else []) ++
-                   (if om = 60 ∧ (Spec.parseFields y mo dd hh mi ss ms sg oh 0).isSome then ["parse_offset_minute_60"] else [])
-        some (reply (numOut m) (numOut sp) (devList dev))
+        some (reply (numOut m) (numOut sp) noDev)
       | _, _ => some "bad-op"
     | none => some "bad-op"
   | _ => none
